@@ -415,10 +415,11 @@ def topological_sort(nodes):
                 rotated.add(dep)
                 nodes.insert(index, nodes.pop(found_index))
                 return True
-        known.add(node.name)
+        if not isinstance(node, Include):
+            known.add(node.name)
 
     known = set(x + y for x in "uir" for y in ["8", "16", "32", "64"])
-    available = set(node.name for node in nodes)
+    available = set(node.name for node in nodes if not isinstance(node, Include))
     enumerators = dict((member.name, node.name) for node in nodes if isinstance(node, Enum) for member in node.members)
     for index in range(len(nodes)):
         rotated = set()
